@@ -143,6 +143,13 @@ impl Inst {
             _ => None,
         }
     }
+    /// consuming AsyncStreamCipher one-shot (CFB, CFB-8 block objects); None if the type has none
+    pub fn finish_async(self, kind: u8, inp: &[u8], out: &mut [u8]) -> Option<Result<usize, ()>> {
+        match self {
+            Inst::B(b) if b.has_async() => Some(b.finish(3 + kind % 3, 0, inp, out)),
+            _ => None,
+        }
+    }
     pub fn snapshot_remaining(&self) -> Option<usize> {
         match self {
             Inst::S(o) => o.remaining_blocks(),
